@@ -215,6 +215,9 @@ def correspondence(ctx, model_ok):
             if problems:
                 viol(f"[{tag}] {list(a.names)} vs {list(b.names)}: " + "; ".join(problems), f"pair:{tag}:{sorted(na)}:{sorted(nb)}",
                      {"kind": "pair", "universe": tag, "a": sorted(na), "b": sorted(nb), "problems": problems})
+            req.append(f"dim {tag} cmp {enc([idx[n] for n in a.names])} {enc([idx[n] for n in b.names])}")
+            tf = lambda v: "true" if v else "false"  # noqa: E731
+            impl.append(f"le={tf(a <= b)} ge={tf(a >= b)} lt={tf(a < b)} gt={tf(a > b)} eq={tf(a == b)} disjoint={tf(a.isdisjoint(b))}")
             req.append(f"dim {tag} union {enc([idx[n] for n in a.names])} {enc([idx[n] for n in b.names])}")
             impl.append(enc([idx[n] for n in un.names]))
             req.append(f"dim {tag} inter {enc([idx[n] for n in a.names])} {enc([idx[n] for n in b.names])}")
